@@ -115,6 +115,16 @@ def py_ecc_modules():
                   if m is not None and (n == "py_ecc" or n.startswith("py_ecc.")))
 
 
+EMPTY = {digest(canon(x)) for x in ({}, [], (), set(), frozenset(), None, b"", "", bytearray())}
+
+
+def cache_like(path, s0):
+    """A path whose value at import time was an empty container / None, or that did not exist at
+    import time, holds mutable working state (a memo table), not a constant: a change there is
+    not by itself a purity violation - only results can tell (C20 compares results)."""
+    return path not in s0 or s0[path] in EMPTY
+
+
 def snapshot():
     out = {"sys.recursionlimit": digest(sys.getrecursionlimit())}
     classes = {}
